@@ -117,7 +117,7 @@ PROPS["C17"] = {
     "engines": [
         {"bin": "hv", "args": ["c17"]},
     ],
-    "min": {"quick": {"tokens_in_randomness_monitor": 4000, "signouts_through_a_route_handler_effective": 6, "sequences": 150, "operations": 3000, "token_probes": 10_000, "route_requests": 500, "sessions_expired_at_birth": 100},
+    "min": {"quick": {"tokens_in_randomness_monitor": 4000, "signouts_through_a_route_handler_effective": 6, "sequences": 150, "operations": 3000, "token_probes": 6_000, "route_requests": 500, "sessions_expired_at_birth": 100},
             "thorough": {"tokens_in_randomness_monitor": 4000, "signouts_through_a_route_handler_effective": 6, "sequences": 2400}},
     "assumptions": [],
     "level_text": "Random operation sequences are executed on the real AuthProvider while a reference model is stepped alongside; every return value is compared and every token ever issued (and, when the user set changes, every password x uid) is probed after each step; the authenticated-route clause is observed on a real App over loopback (also with a handler that itself uses the provider), and the population of issued tokens is checked statistically for the variety 256 random bits give.",
@@ -225,7 +225,7 @@ PROPS["C11"] = {
     "engines": [
         {"bin": "hv", "args": ["c11"]},
     ],
-    "min": {"quick": {"scripts": 1500, "handshakes_ok": 1200, "server_frames_validated": 1500, "messages_delivered": 2000, "pings_answered_by_matching_pong": 300, "close_frames_received": 500, "blocking_vs_nonblocking_compared": 600, "handshakes_refused_without_key": 50, "handshake_key_lengths_swept": 257, "echo_sizes_swept": 280, "mixed_mode_scripts": 80, "slow_scripts_on_timeout_app": 30},
+    "min": {"quick": {"scripts": 1500, "handshakes_ok": 1200, "server_frames_validated": 1500, "messages_delivered": 2000, "pings_answered_by_matching_pong": 300, "close_frames_received": 500, "blocking_vs_nonblocking_compared": 600, "handshakes_refused_without_key": 50, "handshake_key_lengths_swept": 257, "echo_sizes_swept": 270, "mixed_mode_scripts": 80, "slow_scripts_on_timeout_app": 30},
             "thorough": {"scripts": 25_000}},
     "assumptions": [],
     "level_text": "A reference RFC 6455 client plays generated frame scripts against a real App with websocket_handler under three deliveries and both receive modes; every byte the server writes after the 101 must pass a strict frame validator and equal the expected reply sequence (Pong per Ping, echo, Close), and the handler-side log of delivered messages and errors is compared with what the script denotes.",
@@ -238,7 +238,7 @@ PROPS["C12"] = {
     "engines": [
         {"bin": "hv", "args": ["c12"]},
     ],
-    "min": {"quick": {"slow_fragment_clients_fully_dispatched": 6, "scenarios": 150, "handler_events_observed": 4000, "messages_dispatched_exactly_once": 2000, "broadcasts": 150, "disconnects_graceful": 400, "single_handler_thread_scenarios": 70, "unicasts_delivered": 300, "bulk_unicasts_intact": 6, "busy_clients_kept_and_fully_dispatched": 6},
+    "min": {"quick": {"slow_fragment_clients_fully_dispatched": 6, "scenarios": 150, "handler_events_observed": 3000, "messages_dispatched_exactly_once": 2000, "broadcasts": 150, "disconnects_graceful": 400, "single_handler_thread_scenarios": 70, "unicasts_delivered": 300, "bulk_unicasts_intact": 6, "busy_clients_kept_and_fully_dispatched": 6},
             "thorough": {"slow_fragment_clients_fully_dispatched": 6, "scenarios": 1450}},
     "assumptions": [],
     "level_text": "Scenarios of several reference WebSocket clients with random scripts run against the real AsyncWebsocketApp (linked to a real App) under varied pool sizes, poll intervals, heartbeat settings and failpoint delays; the handler-side event log and the frames each client received are checked for exactly-once connect/message/disconnect, addressing of unicasts, coverage of broadcasts, per-client order (single handler thread) and termination of run.",
@@ -264,7 +264,7 @@ PROPS["C14"] = {
     "engines": [
         {"bin": "py", "fn": "c14_programs", "tag": "programs"},
     ],
-    "min": {"quick": {"programs_run": 5, "values_checked": 1000, "json_literals_checked": 600, "assertions_executed": 4000},
+    "min": {"quick": {"programs_run": 5, "values_checked": 900, "json_literals_checked": 600, "assertions_executed": 4000},
             "thorough": {"programs_run": 49}},
     "assumptions": [],
     "level_text": "Rust programs are generated (types via derive and json_map!, random values, json! literals), compiled against the working tree and executed; the programs' own assertions compare the produced JSON with an independently constructed Value, check both round trips, and compare every json! literal with Value::parse of the equivalent text. The driver counts the assertions that actually ran.",
